@@ -278,6 +278,10 @@ def fix_ptm(molecule):
 
     # Keep track of all nodes that get removed due to unknown PTMs
     removed = set()
+    # Residues are labelled with the identified PTMs once all groups of PTM
+    # atoms are dealt with. Labelling them right away would mark PTM atoms of
+    # groups that are still to be identified as already known.
+    to_label = []
 
     known_ptms = molecule.force_field.modifications
 
@@ -359,14 +363,18 @@ def fix_ptm(molecule):
                                          val, format_atom_string(mol_node),
                                          type='change-atom')
                             mol_node[attr_name] = val
-            for n_idx in n_idxs:
-                node = molecule.nodes[n_idx]
-                if not ('modification' in node and ptm in node.get('modifications', [])):
-                    # These nodes already had the modification annotated.
-                    # Also note that 'modification' != 'modifications'. Yes,
-                    # this is an issue. No, I'm not fixing that.
-                    node['modifications'] = node.get('modifications', [])
-                    node['modifications'].append(ptm)
+            to_label.append((n_idxs, ptm))
+
+    for n_idxs, ptm in to_label:
+        # Atoms of unidentified PTMs in the same residues may be gone by now.
+        for n_idx in n_idxs - removed:
+            node = molecule.nodes[n_idx]
+            if not ('modification' in node and ptm in node.get('modifications', [])):
+                # These nodes already had the modification annotated.
+                # Also note that 'modification' != 'modifications'. Yes,
+                # this is an issue. No, I'm not fixing that.
+                node['modifications'] = node.get('modifications', [])
+                node['modifications'].append(ptm)
 
 
 class CanonicalizeModifications(Processor):
